@@ -8,6 +8,7 @@ _TAPE_STUBS = [
     'ASerializable::_recordRead<int>: pops an INT cell; _recordRead<double>: pops a DBL or INT cell; anything else (or end of tape) is a mismatch (asserted) and returns false',
     'ASerializable::_recordReadVec<int>, _recordReadVec<double>(n): pop a vector header whose length must equal n (asserted), then the n elements',
     'std::ostream / std::istream arguments: references to raw storage, never dereferenced',
+    'strlen (solver build only): byte loop, so that the String temporaries built from title literals are executed',
 ]
 _TAPE_ASSUME = [
     'a neutral file is modelled as the sequence of typed records (text layer: 15 digits, NA token, comments, line breaks not encoded)',
@@ -31,6 +32,25 @@ for _name, _mode, _nd, _tiers in (('iso', 0, 2, ('quick', 'thorough')), ('aniso'
       out='fields absent from the file format (flagXvalid, flagKFold, ball-search options, distCont, additional bi-target checkers), '
           'search buffers, the text layer, file open / class tag check',
       assumptions=_TAPE_ASSUME + ['original object: the fields the NeighMoving constructor stores; checker built by the real '
-                                  'BiTargetCheckDistance::create(radius, coeffs, angles); number of coefficients == space dimension',
+                                  'BiTargetCheckDistance::create(radius, coeffs, angles); number of coefficients == space dimension; '
+                                  'radius > 0, coefficients > 0; mode rot: first angle non-zero (rotation present)',
                                   'cos/sin of the rotation angles are uninterpreted (values only moved)'],
+      stubs=_TAPE_STUBS + [_SPACE_STUB])
+
+_NEIGHB_TUS = ['src/Neigh/NeighUnique.cpp', 'src/Neigh/NeighBench.cpp', 'src/Neigh/NeighCell.cpp', 'src/Neigh/NeighImage.cpp',
+               'src/Neigh/ANeigh.cpp', 'src/Geometry/BiTargetCheckBench.cpp', 'src/Geometry/ABiTargetCheck.cpp']
+for _name, _entry, _defs, _bound, _what in (
+        ('unique', 'k_unique', {}, 'space dimension 1..5', 'NeighUnique'),
+        ('bench', 'k_bench', {}, 'space dimension 1..5, width an arbitrary real >= 0', 'NeighBench (checker built by the real BiTargetCheckBench::create)'),
+        ('cell', 'k_cell', {}, 'space dimension 1..5, nmini an arbitrary int', 'NeighCell'),
+        ('image', 'k_image', {'VF_NDIM': 2}, 'space dimension 2, skip an arbitrary int, radii in [0, 2^20]; loaded into a default-constructed object (as createFromNF)', 'NeighImage'),
+        ('image.presized', 'k_image', {'VF_NDIM': 2, 'VF_IMAGE_PRESIZED': 1}, 'space dimension 2, skip an arbitrary int, radii in [0, 2^20]; loaded into an object that already holds 2 radii', 'NeighImage'),
+):
+    K('C08.b.' + _name, property='C08', engine='symex', harness='C08/neighothers.cpp', entry=_entry, tus=_NEIGHB_TUS,
+      defines={'all': _defs}, bounds={'quick': _bound},
+      timeout_ms={'quick': 60000, 'thorough': 300000}, validate={'quick': 20, 'thorough': 40}, validate_doubles='dyadic',
+      what=_what + '::_serialize -> ::_deserialize (with the ANeigh part): records consumed in order and type, both return true, '
+                   'getters of the reloaded object agree, re-serialising gives the same records; memory safety of the loader',
+      out='fields absent from the file format (flagXvalid, flagKFold, ball-search options), the text layer, file open / class tag check',
+      assumptions=_TAPE_ASSUME + ['objects are raw storage holding the fields the constructors store; the object loaded into is in the default-constructed state'],
       stubs=_TAPE_STUBS + [_SPACE_STUB])
